@@ -372,6 +372,48 @@ def build(run):
                       "degree one (conjugate-homogeneous in the test function) for all argument values and all complex s")
     run.add("end-to-end/accepted-forms-are-sesquilinear-as-written", e2e, kind="values")
 
+    # ---- form arguments of USER SUBCLASSES of Argument (a plain subclass, and one registered with @ufl_type(), which gets a type code of its own): the
+    # check must treat them as arguments everywhere, in particular below nonlinear operators
+    def argument_subclasses():
+        from ufl.algorithms import compute_form_data
+        from ufl.core.ufl_type import ufl_type as _ufl_type
+        import os as _os
+
+        class PlainArgument(ufl.Argument):
+            __slots__ = ()
+        RegisteredArgument = _ufl_type()(type(f"RegisteredArgument{_os.getpid()}", (ufl.Argument,), {"__slots__": ()}))
+        tri = mesh("triangle")
+        V = ufl.FunctionSpace(tri, E.LagrangeElement(tri.ufl_cell(), 1))
+        f = ufl.Coefficient(V)
+        dxm = ufl.Measure("dx", domain=tri)
+        n = 0
+        for cls in (PlainArgument, RegisteredArgument):
+            v, u = cls(V, 0), cls(V, 1)
+            nonlinear = {"sqrt(v)*v": ufl.sqrt(v) * v, "abs(v)*v": abs(v) * v, "v**3*v": v ** 3 * v, "sin(v)": ufl.sin(v), "v/(1+v)": v / (1 + v), "max_value(v, 0)*v": ufl.max_value(v, 0) * v,
+                         "conditional(v < 0, v, 2*v)*v": ufl.conditional(ufl.lt(v, 0), v, 2 * v) * v, "u*u*v": u * u * v, "exp(u)*v": ufl.exp(u) * v}
+            linear = {"f*v": f * v, "u*v": u * v, "f*u*v + sin(f)*u*v": f * u * v + ufl.sin(f) * u * v}
+            for nm, e in nonlinear.items():
+                n += 1
+                try:
+                    compute_form_data(e * dxm)
+                except ArityMismatch:
+                    continue
+                except BaseException as ex:  # noqa: BLE001
+                    if isinstance(ex, (KeyboardInterrupt, SystemExit)):
+                        raise
+                    continue            # some other refusal
+                return violated(f"{nm}*dx with v, u of the user class {cls.__name__} ({'registered with @ufl_type(), own type code' if cls is RegisteredArgument else 'plain subclass'}) is accepted as a "
+                                f"multilinear form although it is nonlinear in an argument", replay={"integrand": nm, "argument_class": cls.__name__}, reproduced=True, backend="exec")
+            for nm, e in linear.items():
+                n += 1
+                try:
+                    compute_form_data(e * dxm)
+                except ArityMismatch as ex:
+                    return violated(f"{nm}*dx with arguments of the user class {cls.__name__} is rejected although it is multilinear: {ex}", replay={"integrand": nm, "argument_class": cls.__name__},
+                                    reproduced=True, backend="exec")
+        return proved("exec(finite)", vcs=n, sample=f"{n} forms with arguments of user subclasses (plain / registered): nonlinear ones rejected, multilinear ones accepted")
+    run.add("end-to-end/arguments-of-user-subclasses", argument_subclasses, kind="values")
+
     def canary():
         # x*x with x linear in v0 is NOT linear: a handler result (v0) would be unsound; check the VC machinery refutes it
         w = World(symbolic=True, complex_mode=False)
